@@ -261,7 +261,7 @@ Proof.
       { destruct (N.eq_dec m 0) as [Ez|Ez].
         - rewrite Ez, big_bytes_0 in Ebb. discriminate.
         - destruct (Hlead Ez) as (b & r' & Hbr & Hb). now inversion Hbr; subst. }
-      inversion Hall as [|? ? Ht256 Hr]; subst.
+      inversion_clear Hall as [|? ? Ht256 Hr].
       pose proof (bu_complement _ Hr) as Hcr.
       pose proof (pow256_pos (length r)) as Hp.
       rewrite bu_cons in Hval.
@@ -290,7 +290,7 @@ Proof.
     assert (Hmz : m <> 0%N) by lia.
     destruct (big_bytes_spec m) as (Hall & Hval & Hlead).
     destruct (Hlead Hmz) as (t & r & Hbr & Ht). rewrite Hbr in *.
-    inversion Hall as [|? ? Ht256 Hr]; subst.
+    inversion_clear Hall as [|? ? Ht256 Hr].
     destruct (128 <=? t)%N eqn:E; [apply N.leb_le in E | apply N.leb_gt in E].
     + assert (Hck : check_integer false (0%N :: t :: r) = true).
       { cbn [check_integer]. apply negb_true_iff. apply orb_false_iff. split; apply andb_false_iff.
